@@ -162,7 +162,7 @@ theorem suffix_is_wild (items : List TItem) :
       List.getElem_mem _
     simpa using this
 
-theorem takeWhile_append_stop {p : Str → Bool} (a : List Str) (x : Str) (r : List Str)
+theorem takeWhile_append_stop {α : Type} {p : α → Bool} (a : List α) (x : α) (r : List α)
     (ha : ∀ y ∈ a, p y = true) (hx : p x = false) : (a ++ x :: r).takeWhile p = a := by
   induction a with
   | nil => simp [hx]
@@ -171,7 +171,7 @@ theorem takeWhile_append_stop {p : Str → Bool} (a : List Str) (x : Str) (r : L
     simp only [List.cons_append, List.takeWhile, hy]
     rw [ih (fun z hz => ha z (by simp [hz]))]
 
-theorem dropWhile_append_stop {p : Str → Bool} (a : List Str) (x : Str) (r : List Str)
+theorem dropWhile_append_stop {α : Type} {p : α → Bool} (a : List α) (x : α) (r : List α)
     (ha : ∀ y ∈ a, p y = true) (hx : p x = false) : (a ++ x :: r).dropWhile p = x :: r := by
   induction a with
   | nil => simp [hx]
